@@ -692,7 +692,14 @@ struct TM : public osmium::relations::RelationsManager<TM<N, W, R>, N, W, R, tru
 struct TrivAssembler {
     struct config_type { int unused = 0; };
     explicit TrivAssembler(const config_type&) {}
-    bool operator()(const osmium::Relation& rel, const std::vector<const osmium::Way*>& ways, Buffer& out) { G->on_complete(rel, out, &ways); return true; }
+    // After the observation every relation with an odd id makes the assembler fail the way a real one does on a way node without a
+    // location: MultipolygonManager swallows osmium::invalid_location, and whatever it keeps between two complete_relation() calls
+    // must not leak from the failed relation into the next one.
+    bool operator()(const osmium::Relation& rel, const std::vector<const osmium::Way*>& ways, Buffer& out) {
+        G->on_complete(rel, out, &ways);
+        if (rel.id() % 2 != 0) throw osmium::invalid_location{"assembler: way node without location (injected by the harness)"};
+        return true;
+    }
     bool operator()(const osmium::Way&, Buffer&) { ++G->area_calls; return true; }
     const osmium::area::area_stats& stats() const { static const osmium::area::area_stats s{}; return s; }
 };
